@@ -18,8 +18,34 @@ def go (closed : Bool) : Bytes → List Nat → List Msg → List String
     | (.chunk [], _, _) => ["-"]
     | (.chunk (c :: cs), buf', msgs') => toHex (c :: cs) :: go closed buf' os msgs'
 
+/-- `read_exact(n)` on the adaptor: one caller buffer filled by as many reads as it takes (each read appends to what
+is already there) -/
+def readExact (closed : Bool) : Nat → Bytes → Nat → List Msg → Bytes → Except String (Bytes × Bytes × List Msg)
+  | _, buf, 0, msgs, acc => .ok (acc, buf, msgs)
+  | 0, _, _ + 1, _, _ => .error "PENDING"
+  | fuel + 1, buf, n + 1, msgs, acc =>
+    match Ws.read closed buf (n + 1) msgs with
+    | (.pending, _, _) => .error "PENDING"
+    | (.chunk [], _, _) => .error "EOF"
+    | (.chunk (c :: cs), buf', msgs') => readExact closed fuel buf' (n + 1 - (c :: cs).length) msgs' (acc ++ c :: cs)
+
+def goExact (closed : Bool) : Bytes → List Nat → List Msg → List String
+  | _, [], _ => []
+  | buf, n :: ns, msgs =>
+    match readExact closed (n + 1) buf n msgs [] with
+    | .error e => [e]
+    | .ok (blk, buf', msgs') => (if blk.isEmpty then "-" else toHex blk) :: goExact closed buf' ns msgs'
+
 def handle (ws : List String) : Option String :=
   match ws with
+  | ["ws.exact", c, sizes, msgs] =>
+    let ns : Option (List Nat) := if sizes = "-" then some [] else (sizes.splitOn ",").mapM String.toNat?
+    let ms : Option (List Msg) := if msgs = "-" then some [] else (msgs.splitOn "+").mapM parseMsg
+    match ns, ms with
+    | some ns, some ms =>
+      let r := goExact (c = "1") [] ns ms
+      some (if r.isEmpty then "none" else String.intercalate "+" r)
+    | _, _ => some "bad-op"
   | ["ws.adaptor", c, offers, msgs] =>
     let os : Option (List Nat) := if offers = "-" then some [] else (offers.splitOn ",").mapM String.toNat?
     let ms : Option (List Msg) := if msgs = "-" then some [] else (msgs.splitOn "+").mapM parseMsg
